@@ -421,6 +421,14 @@ pub fn initial() -> Vec<Vec<u8>> {
             }
             p
         })
+        .chain(std::iter::once({
+            // root question and root-owned records (names read back as the empty string)
+            let mut m = base_msg(&vec![0u8], T_NS, true);
+            m.an.push(name_rec(&vec![0u8], T_NS, 5, &nm("a.root-servers.net")));
+            m.an.push(a_rec(&nm("a.root-servers.net"), 6, [198, 41, 0, 4]));
+            m.ar.push(a_rec(&vec![0u8], 7, [1, 1, 1, 1]));
+            encode(&m, Strategy::Max)
+        }))
         .chain(std::iter::once(aligned_pointer_packets()[5].clone()))
         .collect()
 }
